@@ -183,6 +183,53 @@ def check_siblings(chk, prog):
                 d_why = f"dirty id recorded at line {c.line} without any id-unchanged (equality) test"
         e = any(c.p == SUM + "::note_change" for g, c in calls)
         key = f"{CE}::{name}"
+        # (g) WHICH id is recorded: the re-inserted container's own id (the one handed to the insertion), and when the insertion can
+        # return another id (collision), under an equality between the insertion's result and that id
+        for g, c in dsites:
+            P = g.origins(c.args[1]) if len(c.args) > 1 else set()
+            incoming = set()
+            results = []
+            for cc in g.calls:
+                if cc.p == CE + "::insert_owned" and len(cc.args) > 2:
+                    incoming |= g.origins(cc.args[2])
+                    results.append(cc)
+                elif cc.d.startswith("core::ops::function::Fn") and len(cc.ga) > 1 and "ExecutionState" in cc.ga[1] and cc.ga[1].count("Value") >= 2 and len(cc.args) > 1:
+                    tup = [a for a in g.origins(cc.args[1]) if a[0] == "agg"]
+                    for a in tup:
+                        st = g.stmt(a[4], a[5])
+                        if len(st[2][4]) >= 3:
+                            incoming |= g.origins(st[2][4][2])
+                    results.append(cc)
+                elif cc.p.endswith("SharedValue::new") and cc.args:
+                    incoming |= g.origins(cc.args[0])
+            if not incoming:
+                continue
+            E = set(incoming)
+            gs = [gd for gd in guards(g, c.bb) if gd.get("rel") == "Eq"]
+            changed_ = True
+            while changed_:
+                changed_ = False
+                for gd in gs:
+                    oa, ob = g.origins(gd["a"]), g.origins(gd["b"])
+                    if oa & E and not ob <= E:
+                        E |= ob
+                        changed_ = True
+                    if ob & E and not oa <= E:
+                        E |= oa
+                        changed_ = True
+            ok_id = bool(P & E)
+            # a result that is compared at all must be compared with the incoming id
+            res_atoms = {("call", r.p, r.bb, ()) for r in results}
+            ok_res = True
+            for gd in gs:
+                oa, ob = g.origins(gd["a"]), g.origins(gd["b"])
+                for x, y in ((oa, ob), (ob, oa)):
+                    if x & res_atoms and not (y & (incoming | _eq_class(g, gs, incoming, res_atoms))):
+                        ok_res = False
+            chk.judge(ok_id and ok_res, R, key + f":dirty-id-is-own-id{'@closure' if g.kind == 'closure' else ''}", "the id recorded as dirty is the re-inserted container's own id",
+                      "the dirty id recorded after a re-insertion is not the re-inserted container's own id, or the guarding equality compares the insertion's result with another id "
+                      "(e.g. the resident container's): when the rebuilt container keeps its id and wins the merge nothing is refreshed, and semi-naive misses the rows that became matchable",
+                      c.loc)
         # (f) every re-insertion point of a rebuilt container is followed, within the same loop iteration, by a
         # dirty-id decision (a conditional dirty-id site): the occupied AND the vacant arm
         own = prog.region(f) + [h for h in reg if h.name == CE + "::reinsert_incremental" or (h.root or "") == CE + "::reinsert_incremental"]
@@ -222,6 +269,25 @@ def check_siblings(chk, prog):
                   f"collision handling incomplete (merge closure called: {bool(merge)}, index maintenance under result != old: {idx})", f.loc)
         chk.judge(d_ok, R, key + ":dirty-id", f"{len(dsites)} dirty-id site(s), each under an id-unchanged test", d_why, f.loc)
         chk.judge(e, R, key + ":note-change", "notes a change", "variant never reports a change", f.loc)
+
+
+def _eq_class(g, gs, incoming, exclude):
+    """ids known equal to the incoming id through must-guard equalities that do not involve the insertion's result"""
+    E = set(incoming)
+    grew = True
+    while grew:
+        grew = False
+        for gd in gs:
+            oa, ob = g.origins(gd["a"]), g.origins(gd["b"])
+            if (oa & exclude) or (ob & exclude):
+                continue
+            if oa & E and not ob <= E:
+                E |= ob
+                grew = True
+            if ob & E and not oa <= E:
+                E |= oa
+                grew = True
+    return E
 
 
 def _is_drain_loop(g, c):
